@@ -33,11 +33,11 @@ type c04Case struct {
 }
 
 type c04Hit struct {
-	ID     int    `json:"id"`
-	T      string `json:"t"`
-	IDp    string `json:"idp"`
-	Star   string `json:"star"`
-	Path   string `json:"path"`
+	ID   int    `json:"id"`
+	T    string `json:"t"`
+	IDp  string `json:"idp"`
+	Star string `json:"star"`
+	Path string `json:"path"`
 }
 type c04Obs struct {
 	Hits   []c04Hit `json:"hits"`
